@@ -103,19 +103,19 @@ class StridePattern(ParametrizedAttribute):
     @classmethod
     def parse_parameters(cls, parser: AttrParser) -> Sequence[Attribute]:
         with parser.in_angle_brackets():
-            parser.parse_identifier("ub")
+            parser.parse_keyword("ub")
             parser.parse_punctuation("=")
             ub = ArrayAttr(
                 IntAttr(i) for i in parser.parse_comma_separated_list(parser.Delimiter.SQUARE, parser.parse_integer)
             )
             parser.parse_punctuation(",")
-            parser.parse_identifier("ts")
+            parser.parse_keyword("ts")
             parser.parse_punctuation("=")
             ts = ArrayAttr(
                 IntAttr(i) for i in parser.parse_comma_separated_list(parser.Delimiter.SQUARE, parser.parse_integer)
             )
             parser.parse_punctuation(",")
-            parser.parse_identifier("ss")
+            parser.parse_keyword("ss")
             parser.parse_punctuation("=")
             ss = ArrayAttr(
                 IntAttr(i) for i in parser.parse_comma_separated_list(parser.Delimiter.SQUARE, parser.parse_integer)
